@@ -17,7 +17,42 @@ def payloads(tier, seed):
     n = 60 if tier == "quick" else 1200
     return [{"seed": seed, "index": i} for i in range(n)]
 
+KNOWN_EULER = [
+    {"op": "model", "t0": "-2", "t1": "1", "dt": "1", "comps": ["A", "B"], "inf": ["A"]},
+    {"op": "init_pop", "dist": [["A", {"c": "100"}]]},
+    {"op": "flow", "kind": "transition", "name": "ab", "param": {"pw": [{"t": 1}, [{"c": "-1"}], [{"c": "1/8"}, {"c": "1/2"}]]}, "src": "A", "dst": "B"},
+]
+
+def known_payloads():
+    return [{"seed": 0, "index": 0, "known": "euler_linspace"}]
+
+def known_task(W, payload):
+    import jax.numpy as jnp
+    out = mk_out()
+    from interp import Interp
+    I = Interp()
+    for op in KNOWN_EULER:
+        I.apply(op)
+    rr = I.apply({"op": "run", "params": [], "solver": "euler"})
+    out["evals"] += 1
+    if rr["ok"]:
+        m = I.model
+        o = np.array(rr["outputs"])
+        runner = m.get_runner({}, jit=False)
+        for i in range(len(m.times) - 1):
+            st = runner.impl_dict["one_step"]({}, float(m.times[i]), jnp.array(o[i]))
+            want = o[i] + float(m.times[1] - m.times[0]) * np.asarray(st.comp_rates)
+            if not vec_close(list(o[i + 1]), list(want), 1e-9):
+                fail(out, "euler row was not computed from the rates at (times[i], outputs[i])", "c10", payload, row=i + 1,
+                     got=list(map(float, o[i + 1])), want=list(map(float, want)),
+                     signature={"oracle": "euler_recurrence", "site": "runner/jax/solvers.py:euler",
+                                "pattern": "time-varying input with a breakpoint exactly at an output time on a grid where jnp.linspace differs from model.times in the last bit"})
+                break
+    return out
+
 def task(W, payload):
+    if payload.get("known"):
+        return known_task(W, payload)
     r = random.Random(f"C10:{payload['seed']}:{payload['index']}")
     g = Gen(r, Opts(max_strats=2, max_flows=6, n_requests=2))
     prog = g.program()
